@@ -30,7 +30,7 @@ EXHAUSTIVE_SUBDOMAINS = []
 ASSUMPTIONS = ["positions are judged only for the simulated (cleanly encoded) aircraft; noise addresses are judged for robustness, "
                "listing and the Comm-B rule only", "between 59 s and 61 s of silence neither presence nor absence is judged",
                "longitude compared modulo 360; error measured as great-circle angle"]
-REQUIRED = ["calls", "same_squitter_string_repeated", "idle_call_with_no_messages", "batch_processed_at_tnow_exactly_zero", "transitions", "branch_ref", "branch_global", "branch_none", "evicted", "reappeared", "commb_attached", "commb_unknown_ignored",
+REQUIRED = ["calls", "same_squitter_string_repeated", "aircraft_exactly_over_pole_equator_antimeridian", "idle_call_with_no_messages", "batch_processed_at_tnow_exactly_zero", "transitions", "branch_ref", "branch_global", "branch_none", "evicted", "reappeared", "commb_attached", "commb_unknown_ignored",
             "surface_update", "airborne_update", "case_compare", "run_loop", "gap_lt10", "gap_10_180", "gap_gt180", "cross_antimeridian",
             "cross_equator", "cross_nl", "second_tracker_alive"]
 
@@ -633,13 +633,51 @@ def m_runloop(ctx, case):
     ctx.nontrivial(("run", case["hseed"]))
 
 
-MONITORS = {"history": m_history, "runloop": m_runloop}
+def m_special(ctx, case):
+    """an aircraft passing exactly over a pole, the equator at Greenwich, or along the antimeridian: a pair at the special point,
+    then single frames a few hundred metres on - what the table stores is within 0.001 degree of where the aircraft is"""
+    Decode = get_decode()
+    rng = ctx.rng
+    for (lat, lon, dlat, dlon) in ((90.0, 0.0, -0.004, 0.0), (90.0, 123.0, -0.004, 0.0), (-90.0, 0.0, 0.004, 0.0), (-90.0, -77.0, 0.004, 0.0),
+                                   (0.0, 0.0, 0.002, 0.002), (0.0, 180.0, 0.002, -0.002), (45.0, -180.0, 0.0, 0.002), (45.0, 179.9999, 0.0, 0.002),
+                                   (87.0, 10.0, 0.0, 0.003), (-87.0, 10.0, 0.0, 0.003)):
+        addr = rng.getrandbits(24)
+        d = Decode()
+        t = 1000.0
+        track = [(lat, lon, 0), (lat, lon, 1)]
+        for k in range(1, 5):
+            la = lat + k * dlat
+            la = 180.0 - la if la > 90.0 else -180.0 - la if la < -90.0 else la
+            track.append((la, cprgen.wrap180(lon + k * dlon), k & 1))
+        for (la, lo, par) in track:
+            yz, xz = cpr.encode(la, lo, par, False)[:2]
+            hx = "%028X" % bits.es_frame(17, 5, addr, cpr.me_airborne(11, 0, 0, 0x5A5, 0, par, yz, xz))
+            r = call(d.process_raw, [t], [hx], [], [], t + 0.1)
+            ctx.ev()
+            rec = d.acs.get("%06X" % addr, {})
+            if r[0] != "ok":
+                ctx.violation("process_raw-raises-%s" % r[1], batch=[(t, hx)], observed=r[1:])
+                break
+            if rec.get("lat") is not None and rec.get("tpos") == t:
+                elat = abs(rec["lat"] - la)
+                elon = cpr.lon_diff(rec["lon"], lo) * max(math.cos(math.radians(la)), 0.0)
+                if elat > 0.001 or elon > 0.001:
+                    ctx.violation("stored-position-wrong", addr="%06X" % addr, t=t, stored=[rec["lat"], rec["lon"]], true=[la, lo],
+                                  scenario="special point (%s, %s)" % (lat, lon))
+                    break
+            t += 1.0
+        ctx.hit("aircraft_exactly_over_pole_equator_antimeridian")
+    ctx.nontrivial(("special", ctx.seed, ctx.shard))
+
+
+MONITORS = {"history": m_history, "runloop": m_runloop, "special": m_special}
 
 
 def cases(ctx):
     quick = ctx.tier == "quick"
     i = 0
     base = ctx.seed * 1000003
+    yield "special", {}
     for sc in SCEN:
         for rep in range(8 if quick else 40):
             if ctx.mine(i):
